@@ -39,7 +39,7 @@ func NewSlogHandler(logger Logger, config *HandlerOptions) logslog.Handler {
 		logger.SetLevel(config.Level)
 	}
 
-	return &handler4LogSlog{logger.SetColorMode(!config.NoColor).SetJSONMode(config.JSON)}
+	return &handler4LogSlog{Logger: logger.SetColorMode(!config.NoColor).SetJSONMode(config.JSON)}
 }
 
 // HandlerOptions is used for our log/slog Handler.
@@ -56,6 +56,13 @@ type HandlerOptions struct {
 
 type handler4LogSlog struct {
 	Logger
+	ops []handlerOp // what WithAttrs and WithGroup added, in order
+}
+
+// handlerOp is one WithAttrs (group is empty) or WithGroup call.
+type handlerOp struct {
+	group string
+	attrs Attrs
 }
 
 func convertLevelToLogSlog(lvl Level) logslog.Level {
@@ -93,7 +100,7 @@ func (s *handler4LogSlog) Enabled(ctx context.Context, lvl logslog.Level) bool {
 func (s *handler4LogSlog) Handle(ctx context.Context, rec logslog.Record) error {
 	lvl := convertLogSlogLevel(rec.Level)
 	if wi, ok := s.Logger.(LogSlogAware); ok {
-		fields := convertLogSlogRecordAttrs(rec)
+		fields := s.nest(convertLogSlogRecordAttrs(rec))
 
 		// rec.PC would be abandoned because we want skip the extra frames
 		ei := 0
@@ -106,7 +113,7 @@ func (s *handler4LogSlog) Handle(ctx context.Context, rec logslog.Record) error 
 
 		wi.WriteThru(ctx, lvl, rec.Time, rec.PC, rec.Message, fields)
 	} else {
-		fields := convertLogSlogRecordAttrs(rec)
+		fields := s.nest(convertLogSlogRecordAttrs(rec))
 		s.LogAttrs(ctx, lvl, rec.Message, fields)
 	}
 	return nil
@@ -115,25 +122,48 @@ func (s *handler4LogSlog) Handle(ctx context.Context, rec logslog.Record) error 
 // WithAttrs returns a new Handler whose attributes consist of
 // both the receiver's attributes and the arguments.
 func (s *handler4LogSlog) WithAttrs(attrs []logslog.Attr) logslog.Handler {
+	if len(attrs) == 0 {
+		return s
+	}
 	fields := make([]Attr, len(attrs))
 	for i, attr := range attrs {
 		fields[i] = convertAttrToField(attr)
 	}
-	return s.withFields(fields...)
+	return s.with(handlerOp{attrs: fields})
 }
 
 // WithGroup returns a new Handler with the given group appended to
 // the receiver's existing groups.
 func (s *handler4LogSlog) WithGroup(name string) logslog.Handler {
-	return s.withFields(Group(name))
+	if name == "" {
+		return s
+	}
+	return s.with(handlerOp{group: name})
 }
 
-// withFields returns a cloned Handler with the given fields.
-func (s *handler4LogSlog) withFields(fields ...Attr) *handler4LogSlog {
-	cloned := &handler4LogSlog{
-		New().SetAttrs(fields...),
+// with returns a Handler on the same logger - destination, format and
+// level are the receiver's - that remembers one more WithAttrs or
+// WithGroup call.
+func (s *handler4LogSlog) with(op handlerOp) *handler4LogSlog {
+	ops := make([]handlerOp, len(s.ops)+1)
+	copy(ops, s.ops)
+	ops[len(s.ops)] = op
+	return &handler4LogSlog{s.Logger, ops}
+}
+
+// nest puts what WithAttrs and WithGroup added around the attributes
+// of a record: attributes in front, a group around everything that
+// follows it. A group without content is left out.
+func (s *handler4LogSlog) nest(fields Attrs) Attrs {
+	for i := len(s.ops) - 1; i >= 0; i-- {
+		switch op := s.ops[i]; {
+		case op.group == "":
+			fields = append(append(make(Attrs, 0, len(op.attrs)+len(fields)), op.attrs...), fields...)
+		case len(fields) > 0:
+			fields = Attrs{NewGroupedAttr(op.group, fields...)}
+		}
 	}
-	return cloned
+	return fields
 }
 
 var _ logslog.Handler = (*handler4LogSlog)(nil)
